@@ -276,16 +276,20 @@ func canon(t types.Type) string {
 }
 
 func (m *Model) classID(s string) string {
+	// a stable id (independent of the order in which types are met): FNV-1a of the canonical type text
+	h := uint32(2166136261)
+	for i := 0; i < len(s); i++ {
+		h ^= uint32(s[i])
+		h *= 16777619
+	}
 	if m.classes == nil {
 		m.classes = map[string]int{}
 	}
-	if id, ok := m.classes[s]; ok {
-		return fmt.Sprintf("c%d", id)
+	if _, ok := m.classes[s]; !ok {
+		m.classes[s] = int(h)
+		m.classNames = append(m.classNames, s)
 	}
-	id := len(m.classes) + 1
-	m.classes[s] = id
-	m.classNames = append(m.classNames, s)
-	return fmt.Sprintf("c%d", id)
+	return fmt.Sprintf("c%x", h)
 }
 
 // MapHeaps: names of the content and domain heaps of a map type.
